@@ -38,7 +38,9 @@ impl OwnedFd {
 }
 
 // ---- events on the shared socket, in program order
-pub struct RxFrame { pub request: u32, pub flags: u32, pub size: u32, pub body: Seq<u8>, pub payload: Seq<u8>, pub fds: Seq<int> }
+// `demand`: number of bytes the receive call that consumed this frame waits for while the connection is alive (the socket
+// primitive recv_into_iovec_all returns short only at end-of-stream: kani c08_c09_recv_into_iovec_all_bounded_thorough)
+pub struct RxFrame { pub request: u32, pub flags: u32, pub size: u32, pub body: Seq<u8>, pub payload: Seq<u8>, pub fds: Seq<int>, pub demand: nat }
 pub enum Ev { Tx(Frame), Rx(RxFrame) }
 
 pub struct Frame { pub request: u32, pub flags: u32, pub size: u32, pub body: Seq<u8>, pub payload: Seq<u8>, pub fds: Seq<int> }
@@ -87,7 +89,7 @@ impl<R: Req> Endpoint<R> {
                 && final(self).log@ == old(self).log@.push(Ev::Rx(final(self).log@.last()->Rx_0)) && final(self).log@.last() is Rx
                 && r->Ok_0.0 == rx_hdr::<R>(final(self).log@.last()->Rx_0) && hdr_valid_spec(r->Ok_0.0)
                 && final(self).log@.last()->Rx_0.body.len() == T::spec_size() && r->Ok_0.1 == T::decode(final(self).log@.last()->Rx_0.body)
-                && final(self).log@.last()->Rx_0.payload.len() == 0
+                && final(self).log@.last()->Rx_0.payload.len() == 0 && final(self).log@.last()->Rx_0.demand == 12 + T::spec_size()
                 && opt_file_ids(r->Ok_0.2) == final(self).log@.last()->Rx_0.fds && (r->Ok_0.2 is Some ==> r->Ok_0.2->Some_0@.len() >= 1),
     { unimplemented!() }
 
@@ -102,6 +104,7 @@ impl<R: Req> Endpoint<R> {
                 && r->Ok_0.0 == rx_hdr::<R>(final(self).log@.last()->Rx_0) && hdr_valid_spec(r->Ok_0.0)
                 && final(self).log@.last()->Rx_0.body.len() == T::spec_size() && r->Ok_0.1 == T::decode(final(self).log@.last()->Rx_0.body)
                 && r->Ok_0.2 == final(self).log@.last()->Rx_0.payload.len() && r->Ok_0.2 <= old(buf)@.len()
+                && final(self).log@.last()->Rx_0.demand == 12 + T::spec_size() + old(buf)@.len()
                 && final(buf)@.subrange(0, r->Ok_0.2 as int) == final(self).log@.last()->Rx_0.payload
                 && opt_file_ids(r->Ok_0.3) == final(self).log@.last()->Rx_0.fds && (r->Ok_0.3 is Some ==> r->Ok_0.3->Some_0@.len() >= 1),
     { unimplemented!() }
